@@ -306,6 +306,51 @@ static std::string op_file(const std::vector<std::string>& w)
     return out;
 }
 
+// load <kind> <route> <hex>: the loader, then the bytes the object works on
+static std::string op_load(const std::vector<std::string>& w)
+{
+    const std::string& kind = w[1];
+    bool mem = w[2] == "mem";
+    std::vector<uint8_t> b = unhex(w[3]);
+    Guarded g(b);
+    int fd = mem ? -1 : make_fd(b);
+    std::string out;
+    sb_error_t e;
+    if (kind == "traj") {
+        sb_trajectory_t t;
+        e = mem ? sb_trajectory_init_from_binary_file_in_memory(&t, g.ptr, g.n) : sb_trajectory_init_from_binary_file(&t, fd);
+        if (e == SB_SUCCESS) {
+            out = "ok " + S(sb_buffer_is_view(&t.buffer) ? 0 : 1) + " " + hex(SB_BUFFER(t.buffer), sb_buffer_size(&t.buffer));
+            sb_trajectory_destroy(&t);
+        }
+    } else if (kind == "light") {
+        sb_light_program_t t;
+        e = mem ? sb_light_program_init_from_binary_file_in_memory(&t, g.ptr, g.n) : sb_light_program_init_from_binary_file(&t, fd);
+        if (e == SB_SUCCESS) {
+            out = "ok " + S(sb_buffer_is_view(&t.buffer) ? 0 : 1) + " " + hex(SB_BUFFER(t.buffer), sb_buffer_size(&t.buffer));
+            sb_light_program_destroy(&t);
+        }
+    } else if (kind == "yaw") {
+        sb_yaw_control_t t;
+        e = mem ? sb_yaw_control_init_from_binary_file_in_memory(&t, g.ptr, g.n) : sb_yaw_control_init_from_binary_file(&t, fd);
+        if (e == SB_SUCCESS) {
+            out = "ok " + S(sb_buffer_is_view(&t.buffer) ? 0 : 1) + " " + hex(SB_BUFFER(t.buffer), sb_buffer_size(&t.buffer));
+            sb_yaw_control_destroy(&t);
+        }
+    } else {
+        sb_rth_plan_t t;
+        e = mem ? sb_rth_plan_init_from_binary_file_in_memory(&t, g.ptr, g.n) : sb_rth_plan_init_from_binary_file(&t, fd);
+        if (e == SB_SUCCESS) {
+            out = "ok " + S(t.owner ? 1 : 0) + " " + hex(t.buffer, t.buffer_length);
+            sb_rth_plan_destroy(&t);
+        }
+    }
+    if (fd >= 0) {
+        close(fd);
+    }
+    return e == SB_SUCCESS ? out : "e" + S(e);
+}
+
 static std::string op_crc(const std::vector<std::string>& w)
 {
     // crc <init> <hex> <split points, csv or ->: successive calls on the pieces
@@ -351,6 +396,9 @@ static std::string run_case(const std::vector<std::string>& w)
     }
     if (op == "file") {
         return op_file(w);
+    }
+    if (op == "load") {
+        return op_load(w);
     }
     if (op == "crc") {
         return op_crc(w);
